@@ -145,6 +145,14 @@ TRIGGERS = {
  "U-C20": ("C20", "AppBuilder::new_custom starts from a literal block whose time lacks the sub-second part of mock_env().block: apps from new_custom / custom_app without with_block start 879305533 ns earlier than App::default()"),
 }
 
+ATTRIBUTION = {
+ "T-C01": "reported by C02 (`State`): what the change breaks is 'a failed sub-message leaves no trace'; the top-level all-or-nothing statement of C01 still holds for it (DESIGN R1.4)",
+ "T-C15": "written against the tree before the C15 repair; the patch no longer applies. The equivalent change against the repaired code is mutants/m15-subsecond-remainder-dropped.diff, which C15 reports",
+ "V-C10": "an atomicity defect (effects of a failed wasm_sudo tree are committed; queries faithfully show that committed state): reported by C01, C13 and C17, not by C10 (DESIGN R1.6)",
+ "V-C20": "outside the statement's quantifier (no subset / permutation of steps repeats a step) and the statement does not say which of two supplied checksums is kept: deliberately not asserted (DESIGN R1.6)",
+ "W-C10": "a reward-arithmetic defect (V-C15 again): reported by C15 and C16; the query itself is pure and repeatable, so C10 stays silent (DESIGN R1.7)",
+}
+
 def main(logs):
     res = {}
     for lg in logs:
@@ -181,8 +189,13 @@ def main(logs):
             "detected_by": detected,
             "own_property_detected": prop in detected,
         }
+        if sid in ATTRIBUTION:
+            meta["note"] = ATTRIBUTION[sid]
         json.dump(meta, open(os.path.join(d, "meta.json"), "w"), indent=1)
-        rows.append((sid, prop, "yes" if prop in detected else ("NO" if r["checks"] else "not run"), ", ".join(detected), trig))
+        own = "yes" if prop in detected else ("NO" if r["checks"] else "not run")
+        if sid in ATTRIBUTION and own != "yes":
+            own = "no - " + ATTRIBUTION[sid]
+        rows.append((sid, prop, own, ", ".join(detected), trig))
     with open(os.path.join(ROOT, "seeded", "README.md"), "w") as f:
         f.write("# Seeded property-breaking changes (from sub-agents)\n\nS-* = round 1, T-* = round 2, U-* = round 3, V-* = round 4, W-* = round 5, X-* = round 6, Y-* = round 7 (from round 2 on the sub-agent was told the earlier changes as 'already taken'). Each directory holds `patch.diff` (apply with `git -C /repo apply`), the demonstration test `seed_demo.rs`, the sub-agent's `NOTES.md` and `meta.json`.\nAll were re-verified with `tools/selftest.sh` on a scratch copy of /repo: the baseline suite passes with the change, the demonstration passes without and fails with it.\n\n| seed | breaks | own check detects | all quick checks that fail | needs |\n|---|---|---|---|---|\n")
         for row in rows:
